@@ -172,6 +172,10 @@ func TestBuiltinsInModules(t *testing.T) {
 
 // ---------- (b) ModuleMap model ----------
 
+type rawModule struct{ m *tengo.ImmutableMap }
+
+func (r rawModule) Import(string) (interface{}, error) { return r.m, nil }
+
 type mmOp struct {
 	Op   string `json:"op"` // add-src | add-builtin | remove | copy | addmap | use
 	On   int    `json:"on"` // which map
@@ -201,6 +205,11 @@ func checkModuleMapModel(t ev.TB, test string, c *mmCase) {
 		case "add-builtin":
 			real[op.On].AddBuiltinModule(op.Name, map[string]tengo.Object{"v": &tengo.Int{Value: int64(op.Val)}})
 			model[op.On][op.Name] = fmt.Sprintf("imm-map{\"__module_name__\": string(%q), \"v\": int(%d)}", op.Name, op.Val) // builtin modules carry their name
+		case "add-raw":
+			// an embedder-defined Importable whose Import returns a bare
+			// immutable map (no module name inside, unlike AddBuiltinModule's)
+			real[op.On].Add(op.Name, rawModule{&tengo.ImmutableMap{Value: map[string]tengo.Object{"v": &tengo.Int{Value: int64(op.Val)}}}})
+			model[op.On][op.Name] = fmt.Sprintf("imm-map{\"v\": int(%d)}", op.Val)
 		case "remove":
 			real[op.On].Remove(op.Name)
 			delete(model[op.On], op.Name)
@@ -248,6 +257,33 @@ func checkModuleMapModel(t ev.TB, test string, c *mmCase) {
 			}
 		}
 	}
+	// and all modules of a map imported by ONE script (compiled, hence
+	// de-duplicated, together): each import expression yields its own module
+	for i := range real {
+		var src strings.Builder
+		names := sortedNames(model[i])
+		for _, n := range names {
+			fmt.Fprintf(&src, "x_%s := import(%q)\ny_%s := import(%q)\n", n, n, n, n)
+		}
+		if len(names) < 2 {
+			continue
+		}
+		s := tengo.NewScript([]byte(src.String()))
+		s.SetImports(real[i])
+		cc, err := s.Run()
+		if err != nil {
+			ev.Fail(t, test, c, "a script importing all modules of map #%d fails: %v", i, err)
+			return
+		}
+		for _, n := range names {
+			for _, v := range []string{"x_", "y_"} {
+				if got := tv.Describe(cc.Get(v + n).Object()); got != model[i][n] {
+					ev.Fail(t, test, c, "one script importing all of %v from map #%d: import(%q) yields %s, expected %s", names, i, n, got, model[i][n])
+					return
+				}
+			}
+		}
+	}
 	copies := 0
 	for _, op := range c.Ops {
 		if op.Op == "copy" {
@@ -271,7 +307,7 @@ func TestModuleMapModel(t *testing.T) {
 		c := &mmCase{}
 		maps := 1
 		for i := rapid.IntRange(2, 10).Draw(t, "ops"); i > 0; i-- {
-			op := mmOp{Op: rapid.SampledFrom([]string{"add-src", "add-src", "add-builtin", "remove", "copy", "addmap"}).Draw(t, "op"),
+			op := mmOp{Op: rapid.SampledFrom([]string{"add-src", "add-src", "add-builtin", "add-raw", "add-raw", "remove", "copy", "addmap"}).Draw(t, "op"),
 				On: rapid.IntRange(0, maps-1).Draw(t, "on"), From: rapid.IntRange(0, maps-1).Draw(t, "from"),
 				Name: rapid.SampledFrom([]string{"a", "b", "c"}).Draw(t, "name"), Val: rapid.IntRange(0, 9).Draw(t, "val")}
 			if op.Op == "copy" {
